@@ -27,7 +27,9 @@ type c06Case struct {
 	// Len is then the resulting length.
 	Lines []int `json:"lines,omitempty"`
 	// Prior > 0: a chunked transaction of Prior octets (<= N) on the same
-	// connection first, completed ("last") or abandoned ("rset").
+	// connection first, completed ("last"), abandoned ("rset"), or left open
+	// when the connection is upgraded with STARTTLS ("starttls"; the judged
+	// transaction then runs inside TLS after a new greeting).
 	Prior     int    `json:"prior,omitempty"`
 	PriorEnds string `json:"prior_ends,omitempty"`
 }
@@ -90,6 +92,10 @@ func c06Exec(c c06Case, limit int64) (c06Obs, *Verdict) {
 	data := c.Chunks == nil
 	msg, wire := c06Content(c, data)
 	cfg := harness.Config{LMTP: lmtp, MaxMessageBytes: limit}
+	viaTLS := c.Prior > 0 && c.PriorEnds == "starttls"
+	if viaTLS {
+		cfg.TLS = "starttls"
+	}
 	script := harness.Script{LMTPSession: c.Mode == 2,
 		DefaultData: &harness.DataPlan{Read: harness.ReadPlan{Sizes: c.Reads, Limit: -1}, Honest: true}}
 	r := harness.NewRig(cfg, script)
@@ -100,7 +106,27 @@ func c06Exec(c c06Case, limit int64) (c06Obs, *Verdict) {
 	}
 	var cv conv
 	npre := 0
-	if c.Prior > 0 {
+	if viaTLS {
+		// a chunk of an unfinished transfer, then the upgrade: lock-step
+		var pc conv
+		pc.cmd(fmt.Sprintf("BDAT %d", c.Prior))
+		pc.raw(bytes.Repeat([]byte("p"), c.Prior))
+		pc.cmd("STARTTLS")
+		out, st := w.Exchange(pc.buf)
+		prs, err := harness.ParseReplies(out)
+		if st != harness.QIdle || err != nil || len(prs) != 2 || prs[0].Code != 250 || prs[1].Code != 220 {
+			w.Finish()
+			return c06Obs{}, &Verdict{Inconclusive: fmt.Sprintf("plaintext phase did not go as planned: %s %v %v", st, err, codes(prs))}
+		}
+		if err := w.StartTLS(); err != nil {
+			w.Finish()
+			return c06Obs{}, &Verdict{Inconclusive: "TLS handshake: " + err.Error()}
+		}
+		cv.cmd(greetWord(lmtp) + " cli")
+		cv.cmd("MAIL FROM:<s@x>")
+		cv.cmd("RCPT TO:<r0@x>")
+		npre = 3
+	} else if c.Prior > 0 {
 		// an earlier chunked transaction on the same connection; the envelope
 		// of the judged transaction is sent again afterwards
 		pm := bytes.Repeat([]byte("p"), c.Prior)
@@ -211,6 +237,9 @@ func c06Run(c c06Case) Verdict {
 	v := Verdict{}
 	if c.Prior > 0 {
 		v.Classes = append(v.Classes, "after_earlier_chunked_transaction")
+		if c.PriorEnds == "starttls" {
+			v.Classes = append(v.Classes, "earlier_transfer_cut_by_starttls")
+		}
 	}
 	if len(c.Lines) > 0 {
 		v.Classes = append(v.Classes, "generated_lines")
@@ -376,7 +405,93 @@ func c06SizeRun(c c06SizeCase) Verdict {
 	return v
 }
 
+// ---- chunk sizes near the integer limits ----
+
+type c06HugeCase struct {
+	N     int64  `json:"n"`
+	First int    `json:"first"` // octets accepted in earlier chunks of the transaction (0 = none)
+	Size  string `json:"size"`  // the announced size, decimal
+	Last  bool   `json:"last,omitempty"`
+	Mode  int    `json:"mode"`
+}
+
+// c06HugeRun: after First accepted octets a BDAT command announces an
+// enormous chunk. Whatever the server answers, what follows on the wire (more
+// than N octets of NOOP lines) must not be handed to the backend beyond the
+// limit, and the message is never complete.
+func c06HugeRun(c c06HugeCase) Verdict {
+	lmtp := c.Mode != 0
+	cfg := harness.Config{LMTP: lmtp, MaxMessageBytes: c.N}
+	script := harness.Script{LMTPSession: c.Mode == 2,
+		DefaultData: &harness.DataPlan{Read: harness.ReadPlan{Sizes: []int{7}, Limit: -1}, Honest: true}}
+	r := harness.NewRig(cfg, script)
+	w, _ := r.Dial()
+	if e := preamble(w, lmtp, true, 1); e != "" {
+		w.Finish()
+		return Verdict{Inconclusive: e}
+	}
+	if c.First > 0 {
+		var cv conv
+		cv.cmd(fmt.Sprintf("BDAT %d", c.First))
+		cv.raw(bytes.Repeat([]byte("f"), c.First))
+		out, st := w.Exchange(cv.buf)
+		rs, err := harness.ParseReplies(out)
+		if st != harness.QIdle || err != nil || len(rs) != 1 || rs[0].Code != 250 {
+			w.Finish()
+			return Verdict{Inconclusive: fmt.Sprintf("first chunk not accepted: %s %v %v", st, err, codes(rs))}
+		}
+	}
+	line := "BDAT " + c.Size
+	if c.Last {
+		line += " LAST"
+	}
+	var cv conv
+	cv.cmd(line)
+	for len(cv.buf) < int(c.N)+len(line)+40 {
+		cv.cmd("NOOP")
+	}
+	cv.cmd("QUIT")
+	w.Send(cv.buf)
+	rest, fin := w.Finish()
+	if !fin {
+		return finishFail(w)
+	}
+	v := Verdict{NonTrivial: true}
+	val, _ := new(big.Int).SetString(c.Size, 10)
+	switch {
+	case val.Cmp(new(big.Int).Lsh(big.NewInt(1), 63)) >= 0:
+		v.Classes = append(v.Classes, "size_ge_2^63")
+	case val.Cmp(new(big.Int).Sub(new(big.Int).Lsh(big.NewInt(1), 63), big.NewInt(int64(c.First)+1))) >= 0:
+		v.Classes = append(v.Classes, "sum_wraps_int64")
+	case val.Cmp(new(big.Int).Lsh(big.NewInt(1), 32)) >= 0:
+		v.Classes = append(v.Classes, "size_ge_2^32")
+	default:
+		v.Classes = append(v.Classes, "size_lt_2^32")
+	}
+	if c.First > 0 {
+		v.Classes = append(v.Classes, "after_accepted_chunk")
+	}
+	if p := r.Log.Panicked(); p != "" {
+		return failf("panic", "server logged a panic: %s", p)
+	}
+	if _, err := harness.ParseRepliesLenient(rest); err != nil {
+		return failf("reply-syntax", "replies do not parse: %v (%s)", err, q(rest))
+	}
+	total := 0
+	for _, e := range dataEvents(r.B.Events()) {
+		total += len(e.Data.Bytes)
+		if e.Data.EOF {
+			return failf("eof-huge-chunk", "%q after %d accepted octets (limit %d): the message was presented as complete after %d octets", line, c.First, c.N, len(e.Data.Bytes))
+		}
+	}
+	if int64(total) > c.N {
+		return failf("read-over-limit", "%q after %d accepted octets: backend read %d octets with limit %d", line, c.First, total, c.N)
+	}
+	return v
+}
+
 var (
+	c06Huge *subCheck[c06HugeCase]
 	c06Sub  *subCheck[c06Case]
 	c06Enum *subCheck[c06Case]
 	c06Size *subCheck[c06SizeCase]
@@ -387,6 +502,7 @@ func init() {
 		c06Sub = newSub("C06", "rapid", c06Run)
 		c06Enum = newSub("C06", "enum", c06Run)
 		c06Size = newSub("C06", "size", c06SizeRun)
+		c06Huge = newSub("C06", "huge", c06HugeRun)
 	})
 }
 
@@ -486,7 +602,7 @@ func c06Gen(t *rapid.T) c06Case {
 	}
 	if rapid.IntRange(0, 3).Draw(t, "prior") == 0 {
 		c.Prior = rapid.IntRange(1, int(c.N)).Draw(t, "prior_n")
-		c.PriorEnds = rapid.SampledFrom([]string{"last", "rset"}).Draw(t, "prior_ends")
+		c.PriorEnds = rapid.SampledFrom([]string{"last", "rset", "starttls"}).Draw(t, "prior_ends")
 	}
 	c.Reads = rapid.SampledFrom([][]int{{1}, {3}, {int(c.N)}, {int(c.N) + 1}, {4096}}).Draw(t, "reads")
 	return c
@@ -494,7 +610,7 @@ func c06Gen(t *rapid.T) c06Case {
 
 func TestC06(t *testing.T) {
 	registerAll()
-	st.Rule = "cases = (limit N, message length around N or far above, content with line-start dots, DATA or a BDAT chunking, backend read sizes, SMTP/LMTP mode) and (limit, declared SIZE); non-trivial = |len-N| <= 2 OR >= 2 chunks OR SIZE within 1 of N OR SIZE >= 2^32-1; distinct = hash of the whole case"
+	st.Rule = "cases = (limit N, message length around N or far above, content with line-start dots, DATA or a BDAT chunking, backend read sizes, SMTP/LMTP mode) and (limit, declared SIZE) and (limit, accepted octets, BDAT announcing a size near 2^31/2^32/2^63/2^64 followed by more than N octets of commands); non-trivial = |len-N| <= 2 OR >= 2 chunks OR SIZE within 1 of N OR SIZE >= 2^32-1; distinct = hash of the whole case"
 	if !regress(t, "C06") {
 		return
 	}
@@ -546,5 +662,35 @@ func TestC06(t *testing.T) {
 			}
 		}
 	}
+	// chunk sizes near 2^31, 2^32, 2^63 and 2^64, first in the transaction or
+	// after accepted octets
+	for _, n := range []int64{1, 10, 1000} {
+		for _, first := range []int{0, 1, int(n)} {
+			for _, sz := range c06HugeSizes(first) {
+				for _, last := range []bool{false, true} {
+					idx++
+					if !mine(idx) {
+						continue
+					}
+					if !c06Huge.one(t, c06HugeCase{N: n, First: first, Size: sz, Last: last, Mode: idx % 3}) {
+						return
+					}
+				}
+			}
+		}
+	}
 	c06Sub.rapidCheck(t, pickTier(2500, 20000), c06Gen)
+}
+
+func c06HugeSizes(first int) []string {
+	two := big.NewInt(2)
+	var out []string
+	for _, e := range []int64{31, 32, 63, 64} {
+		p := new(big.Int).Exp(two, big.NewInt(e), nil)
+		for d := int64(-2); d <= 1; d++ {
+			out = append(out, new(big.Int).Add(p, big.NewInt(d)).String())
+		}
+		out = append(out, new(big.Int).Sub(p, big.NewInt(int64(first))).String(), new(big.Int).Sub(p, big.NewInt(int64(first)+1)).String())
+	}
+	return append(out, "99999999999999999999999", "0000000000000000000000000000004294967296")
 }
